@@ -1265,8 +1265,10 @@ class KullbackLeiblerConvexConj(Functional):
                 xlogy = scipy.special.xlogy(self.prior, 1 - x)
                 res = -self.domain.element(xlogy).inner(self.domain.one())
 
-        if not np.isfinite(res):
+        if not np.isfinite(res) or np.any(x.asarray() > 1):
             # In this case, some element was larger than or equal to one
+            # (where the prior is zero, ``xlogy`` returns 0 also for
+            # elements larger than one, which are outside the domain)
             return np.inf
         else:
             return res
